@@ -235,6 +235,9 @@ type c20E2ECase struct {
 	Cfg     int   `json:"cfg"`
 	Payload int   `json:"payload"`
 	Direct  bool  `json:"-"`
+	// Duplex: the server application is full duplex from the start: one goroutine reads the client's
+	// payload while another sends a greeting, both making their first call before the client has spoken
+	Duplex bool `json:"duplex,omitempty"`
 }
 
 type c20Out struct {
@@ -245,9 +248,12 @@ type c20Out struct {
 	protected  string
 }
 
+const c20Greeting = "greeting from the server, sent before it has read anything"
+
 func c20RunE2EOnce(c c20E2ECase, direct bool) c20Out {
 	c20Setup()
 	var o c20Out
+	var mu sync.Mutex
 	sim := vfNewStream()
 	k := 0
 	sim.ends[1].seg = func(avail int) int {
@@ -296,10 +302,25 @@ func c20RunE2EOnce(c c20E2ECase, direct bool) c20Out {
 				return
 			}
 			buf := make([]byte, len(payload))
+			if c.Duplex {
+				buf = make([]byte, len(payload)+len(c20Greeting))
+			}
 			if _, err := io.ReadFull(cli, buf); err != nil {
 				o.cerr = err
 				sim.ends[0].Close()
 				return
+			}
+			if c.Duplex {
+				// greeting and echo come from two goroutines: either order, each whole
+				switch {
+				case bytes.HasPrefix(buf, []byte(c20Greeting)):
+					buf = buf[len(c20Greeting):]
+				case bytes.HasSuffix(buf, []byte(c20Greeting)):
+					buf = buf[:len(buf)-len(c20Greeting)]
+				default:
+					o.cerr = fmt.Errorf("the greeting did not arrive whole")
+					return
+				}
 			}
 			o.echo = buf
 			switch x := cli.(type) {
@@ -310,6 +331,24 @@ func c20RunE2EOnce(c c20E2ECase, direct bool) c20Out {
 			}
 		})
 	})
+	if c.Duplex {
+		var gp string
+		sim.drive(1, &wg, func() {
+			gp = vfRecover(func() {
+				if _, err := srv.Write([]byte(c20Greeting)); err != nil {
+					mu.Lock()
+					if o.serr == nil {
+						o.serr = err
+					}
+					mu.Unlock()
+					sim.ends[1].Close()
+				}
+			})
+			mu.Lock()
+			o.panicked += gp
+			mu.Unlock()
+		})
+	}
 	sim.drive(1, &wg, func() {
 		o.panicked += vfRecover(func() {
 			buf := make([]byte, len(payload))
@@ -435,7 +474,7 @@ func TestVF_C20(t *testing.T) {
 		recB.Eval(small || len(c.Chunks) > 0, c)
 	})
 
-	recC := vfRec("C20", "C20c-end-to-end", "a TLCP client and a crypto/tls client perform handshake + echo through the adapter and directly against the stack, with the server's first reads segmented 1..7|rest and the first record's minor version byte rewritten; oracle: same outcome, same suite, same echoed bytes, ProtectedConn of the right type; non-trivial = split or rewritten header")
+	recC := vfRec("C20", "C20c-end-to-end", "a TLCP client and a crypto/tls client perform handshake + echo through the adapter and directly against the stack, with the server's first reads segmented 1..7|rest and the first record's minor version byte rewritten, the server application reading first or full duplex from the start (a second goroutine sends a greeting before the client has spoken); oracle: same outcome, same suite, same echoed bytes, ProtectedConn of the right type; non-trivial = split or rewritten header")
 	j := 0
 	for _, isTLS := range []bool{false, true} {
 		for split := 0; split <= 7; split++ {
@@ -455,11 +494,14 @@ func TestVF_C20(t *testing.T) {
 					if split == 7 {
 						c.Split = []int{1, 1, 1, 1, 1, 1, 1}
 					}
-					sig, msg := c20RunE2E(c)
-					if sig != "" {
-						recC.Violation(sig, c, "%s", msg)
+					for _, duplex := range []bool{false, true} {
+						c.Duplex = duplex
+						sig, msg := c20RunE2E(c)
+						if sig != "" {
+							recC.Violation(sig, c, "%s", msg)
+						}
+						recC.Eval(split > 0 || minor >= 0, c, fmt.Sprintf("tls:%v", isTLS), fmt.Sprintf("duplex:%v", duplex))
 					}
-					recC.Eval(split > 0 || minor >= 0, c, fmt.Sprintf("tls:%v", isTLS))
 				}
 			}
 		}
